@@ -700,3 +700,75 @@ func verifHarness_C13_HiddenNames() {
 		}
 	}
 }
+
+// A paginated listing interrupted by a modification: resuming from the cookie
+// of the last entry seen reports every entry that existed throughout the
+// listing exactly once (first page + rest), whatever happened in between.
+func verifHarness_C13_ListingAcrossModification() {
+	setup := 2
+	rt.Bound("setup operations", setup)
+	rt.MustCover("readdir:interrupted", "readdir:interrupted-by-removal", "readdir:interrupted-by-creation")
+	names := []string{"a", "b"}
+	if rt.Tier() > 0 {
+		names = []string{"a", "b", "c"}
+	}
+	s := verifC13_newState(names)
+	for i := 0; i < setup; i++ {
+		s.step()
+	}
+	root := s.dirs[0]
+	if root.deleted {
+		return
+	}
+	before := map[string]*verifC13_mnode{}
+	for n, c := range root.children {
+		before[n] = c
+	}
+	first := &verifC13_reporter{limit: 1 + rt.Choose(2)}
+	root.real.VirtualReadDir(context.Background(), 0, 0, first)
+	if len(first.names) == 0 {
+		return
+	}
+	// one more arbitrary operation (on any of the tracked directories)
+	s.step()
+	if root.deleted {
+		return
+	}
+	rest := &verifC13_reporter{}
+	st := root.real.VirtualReadDir(context.Background(), first.cookies[len(first.cookies)-1], 0, rest)
+	rt.Assert(st == StatusOK, "resuming a listing succeeds")
+	rt.Cover("readdir:interrupted")
+	seen := map[string]int{}
+	for _, n := range first.names {
+		seen[n]++
+	}
+	for _, n := range rest.names {
+		seen[n]++
+	}
+	removed, created := false, false
+	for n, c := range before {
+		if now, ok := root.children[n]; ok && now == c {
+			if c.isDir || !verifC13_hidden(n) {
+				rt.Assert(seen[n] == 1, "an entry that existed throughout an interrupted listing is reported exactly once")
+			}
+		} else {
+			removed = true
+		}
+	}
+	for n := range root.children {
+		if _, ok := before[n]; !ok {
+			created = true
+			rt.Assert(seen[n] <= 1, "an entry created during a listing is reported at most once")
+		}
+	}
+	for _, n := range rest.names {
+		_, ok := root.children[n]
+		rt.Assert(ok, "the resumed part of a listing only reports entries that exist")
+	}
+	if removed {
+		rt.Cover("readdir:interrupted-by-removal")
+	}
+	if created {
+		rt.Cover("readdir:interrupted-by-creation")
+	}
+}
